@@ -870,6 +870,9 @@ class Gen:
                 # w follows: the whole item contributes c (or 1) interpolated entries + w
                 if choice == "log" or positive:
                     w = self.real("POS")
+                elif self.rng.random() < 0.15:
+                    w = ["r", "n", "0", None, None]
+                    self.hit("NL:I-ends-at-zero")
                 else:
                     w = self.real(vk, nonzero=True)
                 if choice == "log":
@@ -1571,15 +1574,17 @@ def gen_problem(rng, wild=0.0, size=None, tame=False):
 
     def tame_card(fn):
         """in a tame problem no card carries a feature of an open known finding (so that whole files are read)"""
-        sh = fn()
-        for _ in range(40):
-            if hash_in_columns_1_5(sh):
-                sh = fn()        # that would be MCNP's vertical input format: not a sentence of G_core
-                continue
-            if not tame or not any(known_feature(t) for t in features(sh)):
-                break
+        fallback = None
+        for _ in range(60):
             sh = fn()
-        return sh
+            if hash_in_columns_1_5(sh):
+                continue         # that would be MCNP's vertical input format: not a sentence of G_core
+            fallback = sh
+            if not tame or not any(known_feature(t) for t in features(sh)):
+                return sh
+        if fallback is None:
+            raise RuntimeError("gen_core: cannot keep '#' out of columns 1-5")
+        return fallback
 
     def add(block, shape):
         mask = r.choice(["0", "0", "0", "1", "1"]) if r.random() < 0.7 else "".join(r.choice("01") for _ in range(r.randint(2, 7)))
@@ -1874,10 +1879,9 @@ def features(sh):
 
 # feature prefixes that the open known findings of C12 are about -> can gen_core.without take the feature out?
 KNOWN_FEATURES = {
-    "cparam:nonu": True, "cparam:unc": True, "real:zaid-like": True, "real:fortran-after-dot": True,
     "particle-keyword:": True, "particle-symbol:": True, "particle-comment:": True, "tally-mod:+": True,
     "sdef-empty": False, "paren-lead-pad:": True, "mat-plain-after-lib": True, "mul-real": True,
-    "chained-shortcuts-3": True, "paren-then-complement": True, "percell-shortcut:imp:j": True,
+    "paren-then-complement": True, "percell-shortcut:imp:j": True,
     "percell-shortcut:imp:mul": True, "percell-shortcut:vol:mul": True, "lib-suffix-e": True,
     "mul-then-shortcut": True,
 }
@@ -2009,6 +2013,7 @@ def simplify_pads(sh):
 # every alternative of DESIGN.md 5.2 / 5.3 that the generator counts (Gen.hit); the evidence lists the ones a run
 # did not exercise
 ALTERNATIVES = [
+    'NL:I-ends-at-zero',
     'DS:no-option', 'DS:option-A', 'DS:option-C', 'DS:option-D', 'DS:option-H', 'DS:option-L', 'DS:option-S',
     'DS:option-V', 'EQ:=', 'EQ:blank', 'EQ:blank=blank', 'F:modifier-*', 'F:modifier-+', 'F:modifier-none', 'FC',
     'FILL-card', 'FILL:lattice-ranges', 'FILL:n', 'FILL:n (INT)', 'FILL:n (trbody)', 'FM:(REAL+)', 'FM:REAL', 'FS:T',
